@@ -36,7 +36,8 @@ func GetAVCProtectRanges(spsMap map[uint32]*avc.SPS, ppsMap map[uint32]*avc.PPS,
 	for pos < uint32(length-4) {
 		naluLength := binary.BigEndian.Uint32(sample[pos : pos+4])
 		pos += 4
-		if int(pos+naluLength) > len(sample) {
+		// 64-bit sum: a length field near 2^32 must not wrap around to a position inside the sample
+		if uint64(pos)+uint64(naluLength) > uint64(length) {
 			return nil, fmt.Errorf("NALU length fields are bad")
 		}
 		naluType := avc.GetNaluType(sample[pos])
@@ -95,7 +96,8 @@ func GetHEVCProtectRanges(spsMap map[uint32]*hevc.SPS, ppsMap map[uint32]*hevc.P
 	for pos < uint32(length-4) {
 		naluLength := binary.BigEndian.Uint32(sample[pos : pos+4])
 		pos += 4
-		if int(pos+naluLength) > len(sample) {
+		// 64-bit sum: a length field near 2^32 must not wrap around to a position inside the sample
+		if uint64(pos)+uint64(naluLength) > uint64(length) {
 			return nil, fmt.Errorf("NALU length fields are bad")
 		}
 		naluType := hevc.GetNaluType(sample[pos])
